@@ -5,7 +5,7 @@ import numpy as np
 
 from . import tlc
 from .params_replay import fmt_step
-from .session_replay import RES, Injected, SessionReplayer, pval, PNAME
+from .session_replay import Injected, SessionReplayer, pval
 
 # constants of the specification that mirror the code (flip together with the code)
 CODE = {"Finally": True, "ExactRestore": True, "RawSave": True, "KeyedGraph": True}
@@ -74,14 +74,14 @@ def execute(rep, path, check_calls=True):
         out.steps += 1
         try:
             if action == "UserSetParam":
-                rep.amp.set_params({PNAME: pval(args[0])})
+                rep.amp.set_params({rep.pname: pval(args[0])})
             elif action == "UserSetChains":
                 rep.amp.set_used_chains([k - 1 for k in args[0]])
             elif action == "UserSetRes":
-                rep.amp.set_used_res([RES[k] for k in sorted(args[0])])
+                rep.amp.set_used_res([rep.res[k] for k in sorted(args[0])])
             elif action == "UserSetBound":
                 if args[0]:
-                    rep.vm.set_bound({PNAME: (2.0, 3.0)})
+                    rep.vm.set_bound({rep.pname: (2.0, 3.0)})
                 else:
                     rep.vm.remove_bound()
             elif action == "UserCoord":
